@@ -234,6 +234,56 @@ def run_session(rundir: str, spec: dict) -> dict:
             log.ev(e="O", db="wallet")
         return wallet
 
+    net: dict = {}
+
+    def need_net() -> dict:
+        if not net:
+            import ipv8.attestation.identity.community as idc
+            from ipv8.messaging.interfaces.endpoint import Endpoint
+            from ipv8.peer import Peer
+            idc.time = lambda: 1_700_000_000.0      # the "date" field goes into the stored metadata: keep runs identical
+
+            class Wire(Endpoint):
+                """Collects what the overlay sends; nothing is delivered unless the workload does it."""
+
+                def __init__(self, address: tuple) -> None:
+                    super().__init__()
+                    self.address = address
+                    self.sent: list = []
+
+                def assert_open(self) -> None:
+                    pass
+
+                def is_open(self) -> bool:
+                    return True
+
+                def get_address(self) -> tuple:
+                    return self.address
+
+                def send(self, socket_address, packet) -> None:  # noqa: ANN001
+                    self.sent.append((socket_address, packet))
+
+                async def open(self) -> bool:
+                    return True
+
+                def close(self) -> None:
+                    pass
+
+                def reset_byte_counters(self) -> None:
+                    pass
+
+            def overlay(key, address, identity_manager):  # noqa: ANN001, ANN202
+                settings = idc.IdentitySettings()
+                settings.my_peer = Peer(key, address)
+                settings.endpoint = Wire(address)
+                settings.identity_manager = identity_manager
+                return idc.IdentityCommunity(settings)
+
+            net["us"] = overlay(own, ("10.0.0.1", 7001), manager)
+            net["subject"] = overlay(foreign, ("10.0.0.2", 7002), IdentityManager(":memory:"))
+            net["attester"] = overlay(authorities[0], ("10.0.0.3", 7003), IdentityManager(":memory:"))
+        return net
+
     def do(op: list) -> None:
         nonlocal remote
         kind = op[0]
@@ -289,6 +339,39 @@ def run_session(rundir: str, spec: dict) -> dict:
             if authority is not None:
                 auth = authorities[authority]
                 assert p.add_attestation(auth.pub(), p.create_attestation(cred.metadata, auth))
+        elif kind in ("net_attest", "net_garbage", "net_subject"):
+            # Records arrive through the real IdentityCommunity packet handlers (Community.on_packet -> lazy_wrapper ->
+            # on_disclosure / on_attest), fed with the signed datagrams a real remote community produced.  The remote
+            # parties keep their state in :memory: databases; ours is the file under test.
+            #   ("net_attest", name)   a subject we solicited discloses a credential; we store its metadata, attest
+            #                          (store the attestation) and answer
+            #   ("net_garbage", name)  the same, but the metadata field carries two trailing garbage bytes: the
+            #                          handler stores the valid metadata and then raises (on_packet swallows it)
+            #   ("net_subject", name)  we advertise an attribute to an attester and receive its AttestPayload
+            from ipv8.attestation.identity.payload import DisclosePayload
+            name = op[1]
+            need_identity()
+            n = need_net()
+            attribute_hash = hashlib.sha3_256(b"net:" + name.encode()).digest()
+            if kind == "net_subject":
+                n["attester"].add_known_hash(attribute_hash, name, own.pub().key_to_bin())
+                n["us"].request_attestation_advertisement(n["attester"].my_peer, attribute_hash, name)
+                _, packet = n["us"].endpoint.sent.pop()
+                n["attester"].on_packet((n["us"].my_peer.address, packet))
+                _, packet = n["attester"].endpoint.sent.pop()
+                n["us"].on_packet((n["attester"].my_peer.address, packet))
+            else:
+                n["us"].add_known_hash(attribute_hash, name, foreign.pub().key_to_bin())
+                if kind == "net_attest":
+                    n["subject"].request_attestation_advertisement(n["us"].my_peer, attribute_hash, name)
+                    _, packet = n["subject"].endpoint.sent.pop()
+                else:
+                    cred = n["subject"].self_advertise(attribute_hash, name)
+                    md, tokens, atts, auths = n["subject"].pseudonym_manager.disclose_credentials([cred], set())
+                    packet = n["subject"].ezr_pack(DisclosePayload.msg_id,
+                                                   DisclosePayload(md + b"\x00\x01", tokens, atts, auths))
+                n["us"].on_packet((n["subject"].my_peer.address, packet))
+                n["us"].endpoint.sent.clear()
         elif kind == "chain":
             # ("chain", n): n credentials c0 <- c1 <- ... on our pseudonym, created in chain order (cheap inserts)
             p = need_identity()
@@ -315,10 +398,11 @@ def run_session(rundir: str, spec: dict) -> dict:
             assert p.add_credential(token, md, set()) is None
             creds[name] = (token, None)
         elif kind == "content":
-            # ("content", name, size): a token that carries its content (LONGBLOB column, overflow pages)
+            # ("content", name, size): a token that carries its content (LONGBLOB column, overflow pages for large
+            # sizes; size 0 = the empty byte string, size -1 = one zero byte)
             _, name, size = op
             p = need_identity()
-            token = p.tree.add(det_bytes("content:" + name, size))
+            token = p.tree.add(b"\x00" if size < 0 else det_bytes("content:" + name, size))
             from ipv8.attestation.identity.metadata import Metadata
             md = Metadata.create(token, {"name": name, "v": 2}, own)
             assert p.add_credential(token, md, set()) is not None
